@@ -1,13 +1,18 @@
-use crate::{LonelyBlockHash, UnverifiedBlock};
+use crate::{LonelyBlockHash, UnverifiedBlock, delete_unverified_block};
 use ckb_channel::{Receiver, Sender};
+use ckb_error::InternalErrorKind;
 use ckb_logger::{debug, info};
 use ckb_shared::Shared;
+use ckb_shared::block_status::BlockStatus;
 use ckb_store::ChainStore;
+use ckb_types::packed::Byte32;
 use crossbeam::select;
+use dashmap::DashSet;
 use std::sync::Arc;
 
 pub(crate) struct PreloadUnverifiedBlocksChannel {
     shared: Shared,
+    is_pending_verify: Arc<DashSet<Byte32>>,
     preload_unverified_rx: Receiver<LonelyBlockHash>,
 
     unverified_block_tx: Sender<UnverifiedBlock>,
@@ -18,12 +23,14 @@ pub(crate) struct PreloadUnverifiedBlocksChannel {
 impl PreloadUnverifiedBlocksChannel {
     pub(crate) fn new(
         shared: Shared,
+        is_pending_verify: Arc<DashSet<Byte32>>,
         preload_unverified_rx: Receiver<LonelyBlockHash>,
         unverified_block_tx: Sender<UnverifiedBlock>,
         stop_rx: Receiver<()>,
     ) -> Self {
         PreloadUnverifiedBlocksChannel {
             shared,
+            is_pending_verify,
             preload_unverified_rx,
             unverified_block_tx,
             stop_rx,
@@ -55,7 +62,9 @@ impl PreloadUnverifiedBlocksChannel {
         let block_hash = task.block_number_and_hash.hash();
         #[cfg(ckb_verif)]
         ckb_util::verif::point("chain::before_preload");
-        let unverified_block: UnverifiedBlock = self.load_full_unverified_block_by_hash(task);
+        let Some(unverified_block) = self.load_full_unverified_block_by_hash(task) else {
+            return;
+        };
 
         if let Some(metrics) = ckb_metrics::handle() {
             metrics
@@ -72,7 +81,7 @@ impl PreloadUnverifiedBlocksChannel {
         }
     }
 
-    fn load_full_unverified_block_by_hash(&self, task: LonelyBlockHash) -> UnverifiedBlock {
+    fn load_full_unverified_block_by_hash(&self, task: LonelyBlockHash) -> Option<UnverifiedBlock> {
         let _trace_timecost = ckb_metrics::handle()
             .map(|metrics| metrics.ckb_chain_load_full_unverified_block.start_timer());
 
@@ -90,18 +99,52 @@ impl PreloadUnverifiedBlocksChannel {
             .get_block(&block_number_and_hash.hash())
             .expect("block stored");
         let block = Arc::new(block_view);
-        let parent_header = {
+        let Some(parent_header) = self.shared.store().get_block_header(&parent_hash) else {
+            // The parent failed verification and was deleted while this block waited in the
+            // queue (it was accepted as the child of a block pending verification): the block
+            // can never be attached, fail it here the way the verify thread fails the child
+            // of an invalid parent.
+            let block_hash = block_number_and_hash.hash();
+            info!(
+                "block {}-{}'s parent {} has been deleted, it failed verification",
+                block_number_and_hash.number(),
+                block_hash,
+                parent_hash
+            );
+            if let Some(tip) = self.shared.store().get_tip_header()
+                && let Some(tip_ext) = self.shared.store().get_block_ext(&tip.hash())
+            {
+                self.shared.set_unverified_tip(ckb_shared::HeaderIndex::new(
+                    tip.number(),
+                    tip.hash(),
+                    tip_ext.total_difficulty,
+                ));
+            }
+            delete_unverified_block(
+                self.shared.store(),
+                block_hash.clone(),
+                block_number_and_hash.number(),
+                parent_hash.clone(),
+            );
             self.shared
-                .store()
-                .get_block_header(&parent_hash)
-                .expect("parent header stored")
+                .insert_block_status(block_hash.clone(), BlockStatus::BLOCK_INVALID);
+            self.is_pending_verify.remove(&block_hash);
+            if let Some(callback) = verify_callback {
+                callback(Err(InternalErrorKind::Other
+                    .other(format!(
+                        "block: {}'s parent: {} previously verified failed",
+                        block_hash, parent_hash
+                    ))
+                    .into()));
+            }
+            return None;
         };
 
-        UnverifiedBlock {
+        Some(UnverifiedBlock {
             block,
             switch,
             verify_callback,
             parent_header,
-        }
+        })
     }
 }
